@@ -1,6 +1,10 @@
 package univ
 
-import "verif/mc/spec"
+import (
+	"fmt"
+
+	"verif/mc/spec"
+)
 
 // XMultiSameMethod: two services of one file declare an RPC with the same name.
 func XMultiSameMethod() *spec.Spec {
@@ -16,7 +20,7 @@ func XMultiSameMethod() *spec.Spec {
 
 // Extended returns the extended families (everything beyond the documented core combinations).
 func Extended(thorough bool) []*spec.Spec {
-	out := []*spec.Spec{XMultiSameMethod(), XCrossFile(), XTwoServiceFiles(), XTimestampCards(), XTimestampCardsFmt(), XEmptyOrders(), XOneofSiblings(), XSharedMethodHeader(), XQuotedHeaderTexts(), XQuotedAnnotationValues()}
+	out := []*spec.Spec{XMultiSameMethod(), XCrossFile(), XTwoServiceFiles(), XTimestampCards(), XTimestampCardsFmt(), XEmptyOrders(), XOneofSiblings(), XSharedMethodHeader(), XQuotedHeaderTexts(), XQuotedAnnotationValues(), XForeignResponse(), XSameNamedNestedEnums()}
 	out = append(out, CtxSpecs()...)
 	out = append(out, RouteSpecs(thorough)...)
 	out = append(out, BindSpecs(thorough)...)
@@ -141,6 +145,19 @@ func OASShapes() []*spec.Spec {
 		out = append(out, withCell(spec.One("oas_shared_side_products", f), "oas/unit=shared_across_services", "extended", "valid", "genonly"))
 	}
 	{
+		// nested declarations that no field of the service's messages refers to, referring to otherwise unreachable messages
+		list := spec.M("ListResponse", spec.F("names", "string").Rep(), spec.Msg("first", "ListResponse.Entry")).WithNested(
+			spec.M("Entry", spec.F("name", "string")),
+			spec.M("Page", spec.Msg("next", "Cursor"), spec.Msg("by_shard", "ShardInfo").Map()))
+		f := &spec.File{Messages: []*spec.Message{list, spec.M("Cursor", spec.F("token", "string"), spec.Msg("origin", "Origin")), spec.M("Origin", spec.F("host", "string")),
+			spec.M("ShardInfo", spec.F("n", "int32")), spec.M("AdminReq", spec.Msg("page", "ListResponse.Page")), spec.M("Req", spec.F("q", "string"))},
+			Services: []*spec.Service{
+				spec.Svc("CatalogService", "/c", spec.RPC("List", "Req", "ListResponse", "POST", "/list")),
+				spec.Svc("AdminService", "/a", spec.RPC("Seek", "AdminReq", "ListResponse", "POST", "/seek")),
+			}}
+		out = append(out, withCell(spec.One("oas_unused_nested", f), "oas/unit=unused_nested_declarations", "extended", "valid", "genonly"))
+	}
+	{
 		// recursive and mutually recursive types
 		f := &spec.File{Messages: []*spec.Message{
 			spec.M("Tree", spec.F("label", "string"), spec.Msg("children", "Tree").Rep(), spec.Msg("parent", "Tree")),
@@ -215,4 +232,33 @@ func XQuotedAnnotationValues() *spec.Spec {
 			WithOneof(&spec.Oneof{Name: "content", Config: true, Disc: "type", Flatten: true}),
 	}, Services: []*spec.Service{EchoService("QuotedValueService", "Feeling", "Quoted")}}
 	return withCell(spec.One("x_quoted_values", f), "ext/unit=quoted_annotation_values", "extended", "valid", "codec")
+}
+
+// XForeignResponse: RPCs whose request or response message lives in another Go package (a well-known type).
+func XForeignResponse() *spec.Spec {
+	f := &spec.File{Messages: []*spec.Message{spec.M("Req", spec.F("id", "string")), spec.M("Resp", spec.F("ok", "bool"))},
+		Services: []*spec.Service{spec.Svc("ClockService", "/clock",
+			spec.RPC("Now", "Req", ".google.protobuf.Timestamp", "POST", "/now"),
+			spec.RPC("SetNow", ".google.protobuf.Timestamp", "Resp", "POST", "/set"),
+			spec.RPC("Local", "Req", "Resp", "POST", "/local"),
+		)}}
+	return withCell(spec.One("x_foreign_response", f), "ext/unit=foreign_package_messages", "extended", "valid", "genonly")
+}
+
+// XSameNamedNestedEnums: enums of the same short name in different scopes, each with custom values.
+func XSameNamedNestedEnums() *spec.Spec {
+	st := func(vals ...string) *spec.Enum {
+		e := &spec.Enum{Name: "Status"}
+		for i, v := range vals {
+			e.Values = append(e.Values, &spec.EnumValue{Name: fmt.Sprintf("STATUS_%d", i), Num: int32(i), Custom: spec.Str(v)})
+		}
+		return e
+	}
+	order := spec.M("Order", spec.F("id", "string"), spec.En("status", "Order.Status"))
+	order.Enums = []*spec.Enum{st("new", "paid")}
+	invoice := spec.M("Invoice", spec.F("id", "string"), spec.En("status", "Invoice.Status"), spec.En("top", "Status"))
+	invoice.Enums = []*spec.Enum{st("draft", "sent", "settled")}
+	f := &spec.File{Enums: []*spec.Enum{st("unknown", "top")}, Messages: []*spec.Message{order, invoice},
+		Services: []*spec.Service{EchoService("ShopService", "Order", "Invoice")}}
+	return withCell(spec.One("x_same_named_enums", f), "ext/unit=same_named_nested_enums", "extended", "valid", "genonly")
 }
